@@ -345,7 +345,7 @@ class AttributesConverter(object):
             quoted_message=self.proto_to_message(proto.quoted_message)
             if proto.HasField("quoted_message") else None,
             remote_jid=proto.remote_jid if proto.HasField("remote_jid") else None,
-            mentioned_jid=proto.mentioned_jid if len(proto.mentioned_jid) else [],
+            mentioned_jid=list(proto.mentioned_jid),
             edit_version=proto.edit_version if proto.HasField("edit_version") else None,
             revoke_message=proto.revoke_message if proto.HasField("revoke_message") else None
         )
